@@ -412,6 +412,15 @@ func main() {
 						if body == "continue" {
 							failureContinues++
 						}
+					case strings.Contains(src, ".renameUnlessMarked("+ev+".Path, "):
+						// test and rename in one call; `else if !renamed { continue }` is the skip of a marked entry
+						loop = append(loop, "rename-unless-marked")
+						if body == "continue" {
+							failureContinues++
+						}
+						if ei, ok := y.Else.(*ast.IfStmt); ok && strings.HasPrefix(f.Src(ei.Cond), "!") && len(ei.Body.List) > 0 && f.Src(ei.Body.List[len(ei.Body.List)-1]) == "continue" {
+							loop = append(loop, "skip-if-not-renamed")
+						}
 					case strings.Contains(src, "RemoveAll("):
 						loop = append(loop, "remove-renamed")
 						if body == "continue" {
@@ -450,6 +459,40 @@ func main() {
 	out.Def("lowTest", "String", xlib.LeanStr(lowTest))
 	out.Def("evictLoop", "List String", xlib.LeanStrList(loop))
 	out.Def("failedEvictionsContinue", "Nat", strconv.Itoa(failureContinues))
+	// renameUnlessMarked (if it exists): the mutex is taken, released by defer, cache.added[path] is tested and only then
+	// the rename happens - the test and the rename cannot be separated by a markDir
+	underLock := false
+	for _, d := range f.AST.Decls {
+		fd, ok := d.(*ast.FuncDecl)
+		if !ok || fd.Name.Name != "renameUnlessMarked" || fd.Body == nil {
+			continue
+		}
+		ps := paramNames(fd)
+		var seq []string
+		ast.Inspect(fd.Body, func(n ast.Node) bool {
+			switch x := n.(type) {
+			case *ast.DeferStmt:
+				if strings.HasSuffix(callName(x.Call), ".Unlock") {
+					seq = append(seq, "defer-unlock")
+				}
+				return false
+			case *ast.CallExpr:
+				switch name := callName(x); {
+				case strings.HasSuffix(name, ".Lock"):
+					seq = append(seq, "lock")
+				case name == "os.Rename" && len(x.Args) == 2 && len(ps) == 2 && ident(x.Args[0]) == ps[0] && ident(x.Args[1]) == ps[1]:
+					seq = append(seq, "rename")
+				}
+			case *ast.IndexExpr:
+				if strings.HasSuffix(f.Src(x.X), ".added") && len(ps) > 0 && ident(x.Index) == ps[0] {
+					seq = append(seq, "test-mark")
+				}
+			}
+			return true
+		})
+		underLock = strings.Join(seq, ",") == "lock,defer-unlock,test-mark,rename"
+	}
+	out.Def("testAndRenameUnderLock", "Bool", xlib.LeanBool(underLock))
 	// the grace period only affects the order of eviction, which no theorem depends on
 	grace := 0
 	if bl, ok := f.VarValue("accessTimeGracePeriod").(*ast.BasicLit); ok {
